@@ -22,12 +22,40 @@ import struct
 import threading
 import uuid as _uuid
 
-ITERATE_TIMEOUT = 20.0   # watchdog for one loop iteration (normally << 1 ms)
+ITERATE_TIMEOUT = 10.0   # watchdog for one loop iteration (normally << 1 ms)
 STEP_TIMEOUT = 5.0      # hang detector for a single caller step / wake-up (normally << 1 ms)
 
 
 class Abort(BaseException):
     """raised inside parked caller threads at teardown"""
+
+
+class Spin(BaseException):
+    """raised by the watchdog / the reader hooks inside code that never yields to the loop; a
+    BaseException so that `except Exception` clauses of the code under test cannot absorb it"""
+
+
+def show_bytes(b, _cache={}):
+    """bodies as the model driver prints them: hex, or length + rolling hash when long"""
+    b = bytes(b)
+    if len(b) <= 64:
+        return b.hex()
+    r = _cache.get(b)
+    if r is None:
+        h = 0
+        for x in b:
+            h = (h * 31 + x) % 4294967296
+        r = f"L{len(b)}h{h}"
+        if len(_cache) > 64:
+            _cache.clear()
+        _cache[b] = r
+    return r
+
+
+def rle(chunk):
+    """run-length form of a long feed: hh*count,hh*count,..."""
+    import itertools
+    return ",".join(f"{k:02x}*{len(list(g))}" for k, g in itertools.groupby(chunk))
 
 
 class HarnessHang(Exception):
@@ -222,10 +250,10 @@ class Harness:
         self.stream = buf
         self.fed = 0
         # reader-side frame tracking
-        self.rstage = 0
+        self.consumed = 0
         self.read_errors = 0
+        self.empty_reads = 0
         self.spin = False
-        self.rid = None
         self.recv_pending = False
         self.cleanup_shape = []     # what the cleanup was seen doing
         self.snap_n = None
@@ -294,17 +322,25 @@ class Harness:
         h = self
 
         class HookReader(asyncio.StreamReader):
-            async def readexactly(self, n):
-                h.on_read_begin(n)
+            async def _hooked(self, coro):
+                h.on_read_begin()
                 try:
-                    data = await super().readexactly(n)
+                    data = await coro
                 except asyncio.CancelledError:
+                    raise
+                except Spin:
                     raise
                 except BaseException as e:
                     h.on_read_exc(e)
                     raise
-                h.on_read_ok(n, data)
+                h.on_read_ok(data)
                 return data
+
+            async def readexactly(self, n):
+                return await self._hooked(super().readexactly(n))
+
+            async def read(self, n=-1):
+                return await self._hooked(super().read(n))
 
         return HookReader(loop=self.loop)
 
@@ -315,12 +351,21 @@ class Harness:
         armed = False
         if threading.current_thread() is threading.main_thread():
             def _boom(signum, frame):
-                raise HarnessHang("one io-loop iteration does not return")
+                # fires again every ITERATE_TIMEOUT while the iteration keeps running; raised as
+                # a BaseException wherever the loop thread is (usually inside the spinning task)
+                self.spin = True
+                raise Spin()
             old = signal.signal(signal.SIGALRM, _boom)
-            signal.setitimer(signal.ITIMER_REAL, ITERATE_TIMEOUT)
+            signal.setitimer(signal.ITIMER_REAL, ITERATE_TIMEOUT, ITERATE_TIMEOUT)
             armed = True
         try:
             self.loop.run_forever()
+        except Spin:
+            try:
+                self.loop.stop()
+            except Exception:
+                pass
+            raise HarnessHang("one io-loop iteration does not return")
         finally:
             if armed:
                 signal.setitimer(signal.ITIMER_REAL, 0)
@@ -419,22 +464,34 @@ class Harness:
             self.recv_pending = False
             self.labels.append("served")
 
-    def on_read_begin(self, n):
-        if self.rstage == 0:
+    def _at_boundary(self):
+        return self.consumed >= len(self.stream) or any(s == self.consumed for _, _, s, _ in self.frames)
+
+    def on_read_begin(self):
+        if self._at_boundary():
             self._flush_recv()
 
-    def on_read_ok(self, n, data):
-        if self.rstage == 0:
-            self.rid = int.from_bytes(data, "big") if len(data) == 16 else None
-            self.rstage = 1
-        elif self.rstage == 1:
-            self.rstage = 2
-        else:
+    def on_read_ok(self, data):
+        """frames are recognised by stream position, whatever mix of read()/readexactly() the
+        code uses; a read that returns nothing at EOF over and over is a listener that spins"""
+        if len(data) == 0:
+            self.empty_reads += 1
+            if self.empty_reads > 50:
+                self.spin = True
+                raise Spin()
+            return
+        before = self.consumed
+        self.consumed += len(data)
+        cur = None
+        for fr in self.frames:
+            if fr[2] <= before < fr[3]:
+                cur = fr
+                break
+        if cur is not None and self.consumed == cur[3]:
             # a complete frame: `_listen` now tests `msg_id in pending_responses` (same step)
-            self.rstage = 0
+            fid, data = cur[0], cur[1]
             self.labels.append("recv")
-            fid = self.rid
-            uid0 = _uuid.UUID(int=fid) if fid is not None else None
+            uid0 = _uuid.UUID(int=fid)
             if not dict.__contains__(self.nc.pending_responses, uid0) and bytes(data) != self.close_body:
                 self.recv_pending = True        # server push request: `served` when it ends
             if fid is not None and fid < len(self.callers):
@@ -450,9 +507,8 @@ class Harness:
             # the listener keeps reading a dead stream without ever leaving: it would spin
             # forever inside one loop iteration - stop it and let the oracle report
             self.spin = True
-            raise Abort()
+            raise Spin()
         self._flush_recv()
-        self.rstage = 0
         self.labels.append("recv")
 
     def on_write(self, data):
@@ -565,7 +621,7 @@ class Harness:
             for fid, body, s, e in self.frames:
                 if a < e <= b and fid < len(self.callers):
                     self.callers[fid].answers.append(body)
-            self.labels.append("feed b=" + chunk.hex())
+            self.labels.append(("feed b=" + chunk.hex()) if len(chunk) <= 256 else ("feed r=" + rle(chunk)))
             return True
         if op == "EOF":
             self.fault = True
@@ -668,9 +724,9 @@ class Harness:
             return "abort"
         if r[0] == "ok":
             if c.kind != "call":
-                return "ok:" + self.close_body.hex()
+                return "ok:" + show_bytes(self.close_body)
             try:
-                return "ok:" + pickle.dumps(r[1]).hex()
+                return "ok:" + show_bytes(pickle.dumps(r[1]))
             except Exception:
                 return "ok:?"
         name = r[1]
@@ -696,8 +752,8 @@ class Harness:
             try:
                 r = f.result()
                 if isinstance(r, self.ipc.KGRemoteCloseConnection):
-                    return "res:" + self.close_body.hex()
-                return "res:" + pickle.dumps(r).hex()
+                    return "res:" + show_bytes(self.close_body)
+                return "res:" + show_bytes(pickle.dumps(r))
             except Exception:
                 return "res:?"
         n = type(e).__name__
@@ -739,7 +795,7 @@ class Harness:
                     t.cancel()
                 for _ in range(3):
                     self.iterate()
-            except HarnessHang:
+            except (HarnessHang, Spin):
                 pass
             for c in self.callers:
                 if c.thread is not None:
